@@ -271,3 +271,81 @@ func log2of(x uint64) int {
 	}
 	return n
 }
+
+// SlowLowerCase draws a case of the family "slow lower level": write-back caches with very few
+// lines (1-2 sets x 2 ways), at most 1-2 evictions in flight, small MSHR and write buffer, over a
+// lower level that answers after 100-400 cycles (an ideal controller with a large latency, a deep
+// banked pipeline, or the same behind 1-entry port buffers for back-pressure). The workload is
+// dominated by full-line write misses to a handful of lines at high concurrency, so that victims'
+// write-backs queue up in the write buffer (PendingEvictionIndices) while further requests
+// recycle the transaction slots.
+func SlowLowerCase(rng *rand.Rand, requests int) Case {
+	log2 := pickInt(rng, 5, 6, 6)
+	wb := func() Node {
+		return Node{Kind: "writeback", FreqMHz: 1000, Log2Block: log2, Sets: pickInt(rng, 1, 1, 2), Ways: 2, MSHR: pickInt(rng, 1, 2),
+			ReqPerCycle: pickInt(rng, 1, 2, 4), Banks: 1, BankLatency: pickInt(rng, 0, 1, 2), DirLatency: pickInt(rng, 0, 0, 1),
+			WBCap: pickInt(rng, 2, 4, 8), MaxFetch: pickInt(rng, 1, 2), MaxEvict: pickInt(rng, 1, 1, 2)}
+	}
+	var leaf Node
+	switch rng.Intn(3) {
+	case 0, 1:
+		leaf = Node{Kind: "ideal", Latency: 100 + rng.Intn(301), Width: pickInt(rng, 1, 1, 2), Capacity: 1 << 34}
+	default:
+		leaf = Node{Kind: "banked", Banks: pickInt(rng, 1, 2), PipeWidth: 1, PipeDepth: 2, StageLatency: 50 + rng.Intn(150), PostBuf: 1,
+			Log2BankInterleave: 6, Capacity: 1 << 34}
+	}
+	if rng.Intn(3) == 0 {
+		leaf.PortBuf = 1 // back-pressure on the cache's Bottom traffic
+	}
+	top := wb()
+	switch rng.Intn(4) {
+	case 0: // a second small write-back level
+		mid := wb()
+		mid.Lower = []Node{leaf}
+		top.Lower = []Node{mid}
+	case 1: // a ROB between cache and memory
+		top.Lower = []Node{{Kind: "rob", BufferSize: pickInt(rng, 2, 4, 8), ReqPerCycle: pickInt(rng, 1, 2), Lower: []Node{leaf}}}
+	default:
+		top.Lower = []Node{leaf}
+	}
+	if rng.Intn(4) == 0 {
+		top.PortBuf = 1
+	}
+	c := Case{Stack: StackCfg{PortBuf: pickInt(rng, 2, 4, 8), Top: []Node{top}}}
+	g := uint64(1) << uint(log2)
+	lines := pickInt(rng, 3, 4, 6, 8)
+	w := WorkloadCfg{Base: pickUint(rng, 0, 1<<20, 1<<32+1<<16), Size: lines * int(g), Concurrency: 6 + rng.Intn(11)}
+	pid := uint32(rng.Intn(3))
+	for i := 0; i < requests; i++ {
+		line := uint64(rng.Intn(lines))
+		r := Req{Addr: w.Base + line*g, Len: int(g), PID: pid}
+		switch x := rng.Intn(100); {
+		case x < 65:
+			r.Kind, r.Class = "write", "full"
+		case x < 85:
+			r.Kind, r.Class = "read", "read"
+			if rng.Intn(2) == 0 {
+				r.Len = 1 << uint(rng.Intn(log2+1))
+				r.Addr += uint64(rng.Intn(int(g)/r.Len) * r.Len)
+			}
+		default:
+			r.Kind, r.Class = "write", "partial"
+			r.Len = 1 << uint(rng.Intn(log2))
+			r.Addr += uint64(rng.Intn(int(g)/r.Len) * r.Len)
+		}
+		if r.Kind == "write" {
+			r.Data = make(Bytes, r.Len)
+			for j := range r.Data {
+				r.Data[j] = byte(1 + rng.Intn(255))
+			}
+		}
+		if rng.Intn(12) == 0 {
+			r.Wait = 1 + rng.Intn(3)
+		}
+		w.Script = append(w.Script, r)
+	}
+	c.Work = w
+	return c
+}
+
+func pickUint(rng *rand.Rand, xs ...uint64) uint64 { return xs[rng.Intn(len(xs))] }
